@@ -866,6 +866,9 @@ func (v *Verifier) applyContract(s *State, fc *FuncContract, fn *types.Func, rec
 	if fc.Flags["trusted"] {
 		v.trusted[fc.PkgPath+"."+fc.Key()] = true
 	}
+	if fc.Flags["assumed"] {
+		v.assumed["assumed (unverified) contract on in-repo function "+fc.PkgPath+"."+fc.Key()] = true
+	}
 	cpkg := v.eng.typesPkg(fn)
 	env := v.newEnv(cpkg)
 	if fc.RecvName != "" && recv != nil {
@@ -910,6 +913,11 @@ func (v *Verifier) applyContract(s *State, fc *FuncContract, fn *types.Func, rec
 	}
 	for _, c := range fc.clauses("ensures") {
 		s.assume(env.at(s, pre).trBool(c.Expr))
+	}
+	for _, c := range fc.clauses("defines") {
+		// definitional postcondition: gives a name to the function's result; not proved in the callee
+		s.assume(env.at(s, pre).trBool(c.Expr))
+		v.assumed["definitional postcondition of "+fc.PkgPath+"."+fc.Key()+" (names its result as a function of its arguments; not proved): "+c.Text] = true
 	}
 	for _, c := range fc.clauses("fresh") {
 		for _, a := range c.Args {
